@@ -256,7 +256,8 @@ func init() {
 			tu := []string{hxs([]string{"a"}), hxs([]string{"-"}), hxs([]string{"a-"})}
 			var alphabet []string
 			for _, t := range tu {
-				alphabet = append(alphabet, "g:"+t, "s:"+t+":7", "r:"+t, "x:"+t+":5", "f:"+t)
+				// two expiry values, one of them zero: a mark replaces the previous one, whatever its value
+				alphabet = append(alphabet, "g:"+t, "s:"+t+":7", "r:"+t, "x:"+t+":5", "x:"+t+":0", "f:"+t)
 			}
 			alphabet = append(alphabet, "e", "g:"+hxs([]string{"a", "b"}), "x:.:3")
 			L := 3
@@ -315,7 +316,8 @@ func init() {
 					case 6, 7:
 						ops[j] = "r:" + mkT()
 					case 8:
-						ops[j] = "x:" + mkT() + ":" + strconv.Itoa(g.r.intn(1000))
+						// zero and negative durations too: the mark is stored as given
+						ops[j] = "x:" + mkT() + ":" + strconv.Itoa([]int{g.r.intn(1000), g.r.intn(1000), 0, -g.r.intn(1000)}[g.r.intn(4)])
 					case 9:
 						if g.r.chance(1, 2) {
 							ops[j] = "e"
